@@ -54,7 +54,17 @@ var fmaTies32 = [][3]uint32{{0x4f000001, 0x3fc00000, 0x44624c2a}, {0xcf000001, 0
 var fmaTies64 = [][3]uint64{{0x3ead1f6d14e8f1e4, 0x4061b135584e27d3, 0xbf2ff9d69bbd29d1},
 	{0x4153602347dad09f, 0xc0924f19212a9add, 0x408d8ca761383b9e}}
 
+// pick32 draws an operand value; for float operands signalling NaNs (outside the checked domain: their
+// handling depends on MODE.IEEE) are quieted.
 func pick32(r *rand.Rand, vt byte, k int) uint32 {
+	v := pick32raw(r, vt, k)
+	if vt == 'f' && v&0x7f800000 == 0x7f800000 && v&0x007fffff != 0 {
+		v |= 0x00400000
+	}
+	return v
+}
+
+func pick32raw(r *rand.Rand, vt byte, k int) uint32 {
 	var pool []uint32
 	switch vt {
 	case 'f':
